@@ -70,4 +70,14 @@ def _gen_main(rng, tier):
 
 def gen(rng, tier):
     yield from _gen_main(rng, tier)
+    yield from _grid(rng, tier)
     yield from _prim.bits(rng, tier)
+
+
+def _grid(rng, tier):
+    for cfg in GRID_CFGS:
+        w, n = wn(cfg)
+        for s in "ui":
+            for op in UN:
+                for a in edge_grid(w, n):
+                    yield f"{op} {s}{cfg} {hx(a)}", "edge-grid"
